@@ -38,18 +38,19 @@ from . import common as C
 from . import meshgen as MG
 
 PROP = 'C20'
-LEAN_MODULES = ['Femio.Props.C20']
+LEAN_MODULES = ['Femio.Props.C20', 'Femio.Props.C20Pipeline']
 THEOREMS = []          # filled from the audit list below
 PARTIAL = [
-    'the heuristic pipeline of compress() (randomised face hashing, float thresholds cos_thresh / dist_thresh, greedy '
-    'edge / vertex orders, remove_vertices_2, merge_vertices) is NOT modelled end to end: validity of each concrete '
-    'output is established per run by the verified checker (validation), the theorems cover the checker, the face '
-    'cancellation, the edge merge, reindex and the transfer algebra',
-    'volume conservation is a theorem only for the modelled steps under the coplanarity hypothesis of C20_edge_merge; '
-    'removal of degree-2 vertices is not modelled',
+    'the CHOICE of clusters / edges / vertex pairs made by the heuristics of compress() (randomised face hashing, float '
+    'thresholds, greedy orders) is universally quantified (Op of Props/C20Pipeline.lean), not modelled; the spec model '
+    'removeOneEdge is tied to the real function (and to the literal transcription) by differential test on every traced '
+    'call, not by a refinement proof; elem_conv and recalc_node_pos are not modelled',
+    'flux (volume) conservation C20_pipeline_flux is for exact coplanarity only and excludes vertex merging: float '
+    'cos_thresh merges of nearly coplanar faces remain the known finding volume-angle-merge',
     'the construction of the conversion matrices (calculate_nodal_knn / calculate_elemental_knn) is observed, not '
     'modelled: C20_rows_cols_nonempty is about the matrix assembled from a given neighbour table',
 ]
+from . import c20_steps as _steps  # noqa: E402
 RULE = ('meshes: tet (6 Kuhn tets per cell) and hex bricks of 1..3 cells per axis under a random rational affine map with '
         'positive determinant, node ids dense/sparse/large in ascending/descending/shuffled storage order; parameters: '
         'elem_num in {1,2,3,5,8,n,2n} x cos_thresh in {1-1e-9, 0.999, 0.99, 0.9, 0.5, 0, -1} x dist_thresh in {0, 0.1, 0.5, 2} '
@@ -72,6 +73,7 @@ TRUSTED = ['C20: np.matrix / scipy.sparse products of the transfer functions are
 THEOREMS = ['C20_checker_sound', 'C20_check_polyhedron_spec', 'C20_checker_set_not_multiset', 'C20_merge_closed_additive',
             'C20_merge_closed', 'C20_merge_closed_additive_nodup', 'C20_merge_closed_nodup', 'C20_edge_merge', 'C20_edge_merge_flux', 'C20_nodes_exact', 'C20_mean_constants', 'C20_mean_constants_back', 'C20_sum_total',
             'C20_sum_total_back', 'C20_sum_broadcast_counterexample', 'C20_rows_cols_nonempty']
+THEOREMS = THEOREMS + list(_steps.THEOREMS)      # Props/C20Pipeline.lean
 
 
 def quiet(f, *a, **k):
@@ -742,6 +744,7 @@ def run(ctx):
     n_hist = ctx.n(8, 300)
     n_sweep = ctx.n(2, 60)
     warm_up()
+    _steps.run_stream(ctx)      # staged replay of compress() against the step models (Props/C20Pipeline.lean)
     for name, obj in C.corpus_cases(PROP):
         r = replay(ctx, {'input': obj.get('input', obj)})
         ctx.count('corpus:' + ('fails' if r.get('fails') else 'passes'))
@@ -795,6 +798,8 @@ def run(ctx):
 
 
 def replay(ctx, obj):
+    if obj.get('input', {}).get('kind') == 'steps':
+        return _steps.replay(ctx, obj)
     case = obj['input']
     before = len(ctx.failures)
     m = MG.from_json(case['mesh'])
